@@ -30,15 +30,21 @@ unsafe impl GlobalAlloc for Counting {
 #[global_allocator]
 static GLOBAL: Counting = Counting;
 
+#[cfg(feature = "full")]
 mod frame;
+#[cfg(feature = "full")]
 mod gen_um;
+#[cfg(feature = "full")]
 mod enc;
 thread_local! { pub static LAST_PANIC: std::cell::RefCell<String> = std::cell::RefCell::new(String::new()); }
 pub fn last_panic() -> String { LAST_PANIC.with(|p| p.borrow().clone()) }
 mod codec;
 mod gen_login;
+#[cfg(feature = "full")]
 mod chunk;
+#[cfg(feature = "full")]
 mod gen_login_async;
+#[cfg(feature = "full")]
 mod gen_collective;
 
 pub fn hex(b: &[u8]) -> String {
@@ -61,9 +67,13 @@ pub fn unhex(s: &str) -> Option<Vec<u8>> {
 
 fn handle(ws: &[&str]) -> String {
     match ws {
+        #[cfg(feature = "full")]
         ["wframe", exp, dir, len, fill] => frame::wframe(exp, dir, len.parse().unwrap_or(0), fill.parse().unwrap_or(0)),
+        #[cfg(feature = "full")]
         ["rframe", exp, dir, api, hdr, len, fill, extra] => frame::rframe(exp, dir, api, hdr, len.parse().unwrap_or(0), fill.parse().unwrap_or(0), extra.parse().unwrap_or(0)),
+        #[cfg(feature = "full")]
         ["seq", exp, dir, api, lens] => frame::seq(exp, dir, api, lens),
+        #[cfg(feature = "full")]
         ["um", exp, kind, ops] => {
             let mut v = Vec::new();
             for o in ops.split(',') {
@@ -83,10 +93,15 @@ fn handle(ws: &[&str]) -> String {
                 None => "bad-op".into(),
             }
         }
+        #[cfg(feature = "full")]
         ["eseq", exp, dir, api, key, msgs] => enc::eseq(exp, dir, api, key, msgs),
+        #[cfg(feature = "full")]
         ["cipherlaw", exp, key, data] => enc::cipherlaw(exp, key, data),
+        #[cfg(feature = "full")]
         ["coll", v, dir, hex] => match unhex(hex) { Some(b) => gen_collective::coll(v.parse().unwrap_or(0), dir, &b).unwrap_or_else(|| "bad-op".into()), None => "bad-op".into() },
+        #[cfg(feature = "full")]
         ["coll8", v, dir, hex] => match unhex(hex) { Some(b) => gen_collective::coll8(v.parse().unwrap_or(0), dir, &b).unwrap_or_else(|| "bad-op".into()), None => "bad-op".into() },
+        #[cfg(feature = "full")]
         ["chunk", lib, dir, sched] => chunk::chunk(lib, dir, sched),
         ["codec", lib, dir, hex] => codec::codec(lib, dir, hex),
         ["dec", lib, dir, hex] => {
